@@ -290,6 +290,46 @@ def gen_predicate_pair(rng):
     return tp, sp
 
 
+LARGE_ENTRY_BOUND = 300   # mirrors large_entry_bound of coq/Model/C16Fits.v (class large_entries_float_tolerance, F-C16-2)
+
+
+def in_large_entry_class(A, B):
+    """the decidable class of known finding F-C16-2, same predicate as Coq's large_entries_float_tolerance"""
+    return any(abs(int(x)) > LARGE_ENTRY_BOUND for M in (A, B) for r in M for x in r)
+
+
+def gen_large_pair(rng):
+    """(A rows, B rows, ncols, mode): nearly parallel integer rows, entries up to ~2000 (plus a part with entries
+    <= 250, outside the class, where model and code must still agree).  Modes: consec ((n, n-1, ..) vs (n-1, n-2, ..)),
+    perturb (u vs u +- 1 in a few places), scaled (B = k * A: equal spaces), each optionally with a common extra row."""
+    c = rng.choice([2, 2, 3, 3, 4])
+    M = rng.choice([64, 128, 200, 250, 250, 320, 400, 400, 700, 1000, 1500, 2000])
+    mode = rng.choice(["consec", "consec", "perturb", "perturb", "scaled"])
+    if mode == "consec":
+        n = rng.randint(max(8, M // 2), M)
+        shape = [rng.choice([0, 0, 1]) for _ in range(c)]      # which entries are n-1 instead of n
+        shape[rng.randrange(c)] = 1
+        shape[(shape.index(1) + 1) % c] = 0
+        sign = [rng.choice([1, 1, -1]) for _ in range(c)]
+        u = [sg * (n - sh) for sg, sh in zip(sign, shape)]
+        v = [sg * (n - 1 - sh) for sg, sh in zip(sign, shape)]
+    elif mode == "perturb":
+        u = [rng.randint(-M, M) for _ in range(c)]
+        if not any(u):
+            u[0] = M
+        v = [max(-M, min(M, x + rng.choice([-1, 0, 0, 1]))) for x in u]
+    else:
+        k = rng.choice([2, 3, -1])
+        u = [rng.randint(-(M // abs(k)), M // abs(k)) for _ in range(c)]
+        v = [k * x for x in u]
+    A, B = [u], [v]
+    if rng.random() < 0.3:                                      # a common second row
+        w = [0] * c
+        w[rng.randrange(c)] = 1
+        A, B = [u, w], ([w, v] if rng.random() < 0.5 else [v, w])
+    return A, B, c, mode
+
+
 def gen_checks(rng, nops):
     """(python callables, Coq list literal, description)"""
     from snaxc.ir.dart.scheduler import is_memory_flexible_enough, is_pure_output_stationary
